@@ -790,7 +790,7 @@ theorem tight_send (st : St) (s : Recv.Src) (q : List Send.Req) (payload : Send.
       simp only [List.mem_append] at hw
       rcases hw with hw | hw
       · exact absurd hl (hold w hw)
-      · rcases f6 with e | ⟨_, _, _, _, e⟩
+      · rcases f6 with ⟨e, _⟩ | ⟨_, _, _, _, _, e⟩
         · exact e
         · rw [e] at hw; cases hw
     · rcases h.two with ⟨a, b, t1, t2⟩
@@ -925,7 +925,7 @@ theorem sends_two : ∀ (m : Nat) (st : St) (q : List Send.Req) (s : Recv.Src) (
         (run (step st (.sendCall (mainPayload b) t)).1 (sends m t b)).1.gen = st.gen ∧
         (run (step st (.sendCall (mainPayload b) t)).1 (sends m t b)).1.con.prevId = st.con.prevId ∧
         returned (run (step st (.sendCall (mainPayload b) t)).1 (sends m t b)).2 = [] := by
-      rcases f6 with e | ⟨r, hr, g1, g2, _⟩
+      rcases f6 with ⟨e, _⟩ | ⟨r, hr, g1, _, g2, _⟩
       · subst e
         exact sends_spec m (step st (.sendCall (mainPayload b) t)).1 [] _ t T b f1 hc' f4 ht (by simp)
       · have hx := htwo r hr g1
